@@ -1,9 +1,21 @@
 import HecsModel.Model.Tracker
+import HecsModel.Lemmas.TrackerReports
+import HecsModel.Lemmas.TrackerHistory
+import HecsModel.Lemmas.TrackerHeadlines
 /-
-  C18 — ChangeTracker reports exactly the difference between consecutive snapshots. (interim)
+  C18 — ChangeTracker reports exactly the difference between consecutive snapshots, regardless of
+  which reports are read, in which order, and whether iterators are abandoned.
+
+  `t` is the tracked component type, `p` the hidden snapshot component (`Previous<T>`), `t ≠ p`.
+  The observation is `comp w e c : Option Nat`, the value of component `c` of the handle `e` read
+  through `World.lookup` (so it is flush-invariant; `comp_iff`, `comp_iff_liveRows`).  The abstraction
+  of a world is `cur w = snapshot w.liveRows t` and `prevOf w = snapshot w.liveRows p`
+  (`mem_cur_iff`).  All reports are characterised as sets (storage order is irrelevant).
+
+  Property theorems only; helper lemmas live in `Lemmas/Tracker*.lean`.
 -/
 namespace Hecs.Props.C18
-open Hecs Hecs.Tracker
+open Hecs Hecs.World Hecs.Tracker Hecs.TrackerLemmas
 
 /-- the three specified reports are pairwise disjoint in the entities they name -/
 theorem spec_added_not_changed (prev cur : List (Entity × Nat)) (e : Entity) (v : Nat)
@@ -26,5 +38,361 @@ theorem spec_added_not_changed (prev cur : List (Entity × Nat)) (e : Entity) (v
         exact ⟨o', hmem, by simp [hp, hc2.1]⟩
       simp [this] at h
     · simp at hc2
+
+/-! ### 0. the observation and the abstraction -/
+
+/-- `comp w e c = some v`: the handle exists and its component list has value `v` at type `c` -/
+theorem comp_iff (w : World) (e : Entity) (c v : Nat) :
+    comp w e c = some v ↔ ∃ cs, w.lookup e = some cs ∧ lookupComp c cs = some v := comp_eq_some
+
+/-- … equivalently: `e` is a live row whose own values have `v` at type `c` -/
+theorem comp_iff_liveRows (w : World) (hw : w.Inv) (e : Entity) (c v : Nat) :
+    comp w e c = some v ↔ ∃ vals, (e, vals) ∈ w.liveRows ∧ lookupComp c vals = some v :=
+  comp_eq_some_iff_liveRows w hw.core e c v
+
+/-- a handle with a component is live (reserved handles have none) -/
+theorem comp_live (w : World) (e : Entity) (c v : Nat) (h : comp w e c = some v) : w.isLive e = true :=
+  isLive_of_comp h
+
+/-- the observation does not see `flush` -/
+theorem comp_flush_eq (w : World) (hw : w.Inv) (e : Entity) (c : Nat) : comp w.flush e c = comp w e c :=
+  comp_flush w hw e c
+
+/-- the live rows are the live handles with their `lookup` -/
+theorem liveRows_iff (w : World) (hw : w.Inv) (e : Entity) (vals : List Comp) :
+    (e, vals) ∈ w.liveRows ↔ w.isLive e = true ∧ w.lookup e = some vals :=
+  mem_liveRows_iff w hw.core e vals
+
+/-- `cur w` (`c = t`) and `prevOf w` (`c = p`): the specification's snapshot of a component -/
+theorem mem_cur_iff (w : World) (hw : w.Inv) (c : Nat) (e : Entity) (v : Nat) :
+    (e, v) ∈ snapshot w.liveRows c ↔ comp w e c = some v :=
+  mem_snapshot_iff w hw.core c e v
+
+/-! ### 1. each read reports the specified difference (as a set) -/
+
+theorem added_report (t p : Nat) (s : CSt) (hw : s.w.Inv) (e : Entity) (v : Nat) :
+    (e, v) ∈ (doAdded t p s).2 ↔ comp s.w e t = some v ∧ comp s.w e p = none :=
+  mem_doAdded t p s hw e v
+
+theorem changed_report (t p : Nat) (s : CSt) (hw : s.w.Inv) (e : Entity) (old new : Nat) :
+    (e, old, new) ∈ (doChanged t p s).2 ↔
+      comp s.w e t = some new ∧ comp s.w e p = some old ∧ new ≠ old :=
+  mem_doChanged t p s hw e old new
+
+theorem removed_report (t p : Nat) (s : CSt) (hw : s.w.Inv) (e : Entity) (old : Nat) :
+    (e, old) ∈ (doRemoved t p s).2 ↔ comp s.w e p = some old ∧ comp s.w e t = none :=
+  mem_doRemoved t p s hw e old
+
+/-- the same relative to the flushed world (`remove` flushes): `e` is live there, has snapshot `old`
+and no `t` -/
+theorem removed_report_flush (t p : Nat) (s : CSt) (hw : s.w.Inv) (e : Entity) (old : Nat) :
+    (e, old) ∈ (doRemoved t p s).2 ↔
+      s.w.flush.isLive e = true ∧ comp s.w.flush e p = some old ∧ comp s.w.flush e t = none :=
+  Headline.removed_report_flush t p s hw e old
+
+/-- every report is also the specified list of the spec functions, for `prev = prevOf s.w`,
+`cur = cur s.w` -/
+theorem reports_eq_spec (t p : Nat) (s : CSt) (hw : s.w.Inv) :
+    (∀ e v, (e, v) ∈ (doAdded t p s).2 ↔
+      (e, v) ∈ specAdded (snapshot s.w.liveRows p) (snapshot s.w.liveRows t)) ∧
+    (∀ e o n, (e, o, n) ∈ (doChanged t p s).2 ↔
+      (e, o, n) ∈ specChanged (snapshot s.w.liveRows p) (snapshot s.w.liveRows t)) ∧
+    (∀ e o, (e, o) ∈ (doRemoved t p s).2 ↔
+      (e, o) ∈ specRemoved (snapshot s.w.liveRows p) (snapshot s.w.liveRows t) (s.w.liveRows.map (·.1))) :=
+  have h := classes_eq_spec t p s.w hw
+  ⟨fun e v => (mem_doAdded t p s hw e v).trans (h.1 e v),
+   fun e o n => (mem_doChanged t p s hw e o n).trans (h.2.1 e o n),
+   fun e o => (mem_doRemoved t p s hw e o).trans (h.2.2 e o)⟩
+
+/-! ### 2. effects of the reads on the world -/
+
+theorem added_world (t p : Nat) (s : CSt) : (doAdded t p s).1.w = s.w := rfl
+
+/-- `doChanged`: the invariant is kept; handles and liveness are unchanged; every component other than
+`p` of every handle is unchanged; `p` becomes `t`'s value where both existed and is unchanged
+elsewhere -/
+theorem changed_effect (t p : Nat) (s : CSt) (hw : s.w.Inv) :
+    (doChanged t p s).1.w.Inv ∧
+    (∀ e, (doChanged t p s).1.w.isLive e = s.w.isLive e) ∧
+    (∀ e, ((doChanged t p s).1.w.lookup e).isSome = (s.w.lookup e).isSome) ∧
+    (∀ e c, c ≠ p → comp (doChanged t p s).1.w e c = comp s.w e c) ∧
+    (∀ e n o, comp s.w e t = some n → comp s.w e p = some o → comp (doChanged t p s).1.w e p = some n) ∧
+    (∀ e, comp s.w e t = none ∨ comp s.w e p = none → comp (doChanged t p s).1.w e p = comp s.w e p) :=
+  Headline.changed_effect t p s hw
+
+/-- … in particular exactly the reported entities get a new snapshot (the reported new value) -/
+theorem changed_reported (t p : Nat) (s : CSt) (hw : s.w.Inv) (e : Entity) :
+    (∀ o n, (e, o, n) ∈ (doChanged t p s).2 → comp (doChanged t p s).1.w e p = some n) ∧
+    ((∀ o n, (e, o, n) ∉ (doChanged t p s).2) → comp (doChanged t p s).1.w e p = comp s.w e p) :=
+  Headline.changed_reported t p s hw e
+
+/-- `doRemoved`: the invariant is kept; the handles are the same, live ones stay live (the world may
+have been flushed); every component other than `p` of every handle is unchanged; `p` disappears
+where there is no `t` and is unchanged elsewhere -/
+theorem removed_effect (t p : Nat) (s : CSt) (hw : s.w.Inv) :
+    (doRemoved t p s).1.w.Inv ∧
+    (∀ e, s.w.isLive e = true → (doRemoved t p s).1.w.isLive e = true) ∧
+    (∀ e, ((doRemoved t p s).1.w.lookup e).isSome = (s.w.lookup e).isSome) ∧
+    (∀ e c, c ≠ p → comp (doRemoved t p s).1.w e c = comp s.w e c) ∧
+    (∀ e, comp s.w e t = none → comp (doRemoved t p s).1.w e p = none) ∧
+    (∀ e n, comp s.w e t = some n → comp (doRemoved t p s).1.w e p = comp s.w e p) :=
+  Headline.removed_effect t p s hw
+
+/-- … in particular `p` is removed exactly from the reported entities -/
+theorem removed_reported (t p : Nat) (s : CSt) (hw : s.w.Inv) (e : Entity) :
+    (∀ o, (e, o) ∈ (doRemoved t p s).2 → comp (doRemoved t p s).1.w e p = none) ∧
+    ((∀ o, (e, o) ∉ (doRemoved t p s).2) → comp (doRemoved t p s).1.w e p = comp s.w e p) :=
+  Headline.removed_reported t p s hw e
+
+/-- the component lists without `p` are literally unchanged by `doChanged` and `doRemoved` -/
+theorem reads_visible (t p : Nat) (s : CSt) (hw : s.w.Inv) (e : Entity) :
+    ((doChanged t p s).1.w.lookup e).map (List.filter (fun c => c.1 != p)) =
+      (s.w.lookup e).map (List.filter (fun c => c.1 != p)) ∧
+    ((doRemoved t p s).1.w.lookup e).map (List.filter (fun c => c.1 != p)) =
+      (s.w.lookup e).map (List.filter (fun c => c.1 != p)) :=
+  ⟨(doChanged_onlyP t p s hw).visible hw (doChanged_effect t p s hw).1 e,
+   (doRemoved_effect t p s hw).2.1.visible hw (doRemoved_effect t p s hw).1 e⟩
+
+/-! ### 3. the tracker invariant after a full `track`, for every list of reads -/
+
+theorem track_inv {t p : Nat} (htp : t ≠ p) (w : World) (hw : w.Inv) (reads : List Read) :
+    (track t p w reads).1.Inv := (track_spec htp w hw reads).1
+
+/-- afterwards the snapshot of every handle is its current `t` value (absent iff absent) -/
+theorem track_snapshot_eq_current {t p : Nat} (htp : t ≠ p) (w : World) (hw : w.Inv) (reads : List Read)
+    (e : Entity) : comp (track t p w reads).1 e p = comp (track t p w reads).1 e t :=
+  track_tracked htp w hw reads e
+
+/-- the same on the live rows -/
+theorem track_snapshot_eq_current_rows {t p : Nat} (htp : t ≠ p) (w : World) (hw : w.Inv)
+    (reads : List Read) (e : Entity) (cs : List Comp) (h : (e, cs) ∈ (track t p w reads).1.liveRows) :
+    lookupComp p cs = lookupComp t cs :=
+  Headline.track_snapshot_eq_current_rows htp w hw reads e cs h
+
+/-- and it is the `t` value at the start of `track` -/
+theorem track_snapshot_eq_start {t p : Nat} (htp : t ≠ p) (w : World) (hw : w.Inv) (reads : List Read)
+    (e : Entity) : comp (track t p w reads).1 e p = comp w e t :=
+  (track_spec htp w hw reads).2.2 e
+
+/-- `track` touches nothing but `p`: same handles, every other component of every handle unchanged
+(as values and as lists) -/
+theorem track_frame {t p : Nat} (htp : t ≠ p) (w : World) (hw : w.Inv) (reads : List Read) (e : Entity) :
+    ((track t p w reads).1.lookup e).isSome = (w.lookup e).isSome ∧
+    (∀ c, c ≠ p → comp (track t p w reads).1 e c = comp w e c) ∧
+    ((track t p w reads).1.lookup e).map (List.filter (fun c => c.1 != p)) =
+      (w.lookup e).map (List.filter (fun c => c.1 != p)) :=
+  have h := track_spec htp w hw reads
+  ⟨h.2.1.ex e, h.2.1.comp e, h.2.1.visible hw h.1 e⟩
+
+/-- liveness afterwards lies between that of `w` and that of `w.flush` (`track` flushes only when it
+calls `insert`/`remove`) -/
+theorem track_live {t p : Nat} (htp : t ≠ p) (w : World) (hw : w.Inv) (reads : List Read) (e : Entity) :
+    (w.isLive e = true → (track t p w reads).1.isLive e = true) ∧
+    ((track t p w reads).1.isLive e = true → w.flush.isLive e = true) :=
+  Headline.track_live htp w hw reads e
+
+/-! ### 4. the reports of a `track` -/
+
+/-- (a) what a read reports after any earlier reads `pre` of the same `track`, relative to the world
+`w` at the start: `added` always reports the added set (reading it does not change the world);
+`changed` and `removed` report their set the first time and nothing afterwards (the first read
+consumed it); reads of different kinds do not interfere -/
+theorem read_after_any_prefix {t p : Nat} (htp : t ≠ p) (w : World) (hw : w.Inv) (pre : List Read) :
+    (∀ e v, (e, v) ∈ (doAdded t p (runReads t p w pre).1).2 ↔
+      comp w e t = some v ∧ comp w e p = none) ∧
+    (∀ e o n, (e, o, n) ∈ (doChanged t p (runReads t p w pre).1).2 ↔
+      pre.any isChangedRead = false ∧ comp w e t = some n ∧ comp w e p = some o ∧ n ≠ o) ∧
+    (∀ e o, (e, o) ∈ (doRemoved t p (runReads t p w pre).1).2 ↔
+      pre.any isRemovedRead = false ∧ comp w e p = some o ∧ comp w e t = none) :=
+  read_after htp w hw pre
+
+/-- `runReads` is the fold inside `track`, and the read `r` of `pre ++ r :: post` is performed in the
+state reached by `pre` -/
+theorem track_unfold (t p : Nat) (w : World) (pre post : List Read) (r : Read) :
+    track t p w (pre ++ r :: post) =
+      (doDrop t p (runReads t p w (pre ++ r :: post)).1, (runReads t p w (pre ++ r :: post)).2) ∧
+    runReads t p w (pre ++ r :: post) =
+      post.foldl (fun acc r => doRead t p acc.1 acc.2 r)
+        (doRead t p (runReads t p w pre).1 (runReads t p w pre).2 r) :=
+  ⟨rfl, runReads_append t p w pre post r⟩
+
+/-- a second `changed` / `removed` read of the same `track` returns the empty list -/
+theorem second_read_empty {t p : Nat} (htp : t ≠ p) (w : World) (hw : w.Inv) (pre : List Read) :
+    (pre.any isChangedRead = true → (doChanged t p (runReads t p w pre).1).2 = []) ∧
+    (pre.any isRemovedRead = true → (doRemoved t p (runReads t p w pre).1).2 = []) :=
+  have h := runReads_rinv htp w hw pre
+  have f := runReads_flags t p w pre
+  ⟨fun hh => h.report_changed_again htp (f.2.1.trans hh),
+   fun hh => h.report_removed_again htp (f.2.2.trans hh)⟩
+
+/-- (b) `reports_eq_diff`: with `changed` and `removed` read at most once each (`added` any number of
+times), in any order and with any `partial_` flags, the reports returned by `track` are present
+exactly for the kinds read and equal, as sets, the specified differences between
+`prev = prevOf w` and `cur = cur w` -/
+theorem reports_eq_diff {t p : Nat} (htp : t ≠ p) (w : World) (hw : w.Inv) (reads : List Read)
+    (hc : reads.countP isChangedRead ≤ 1) (hr : reads.countP isRemovedRead ≤ 1) :
+    ((track t p w reads).2.added.isSome = reads.any isAddedRead ∧
+      ∀ l, (track t p w reads).2.added = some l → ∀ e v,
+        (e, v) ∈ l ↔ (e, v) ∈ specAdded (snapshot w.liveRows p) (snapshot w.liveRows t)) ∧
+    ((track t p w reads).2.changed.isSome = reads.any isChangedRead ∧
+      ∀ l, (track t p w reads).2.changed = some l → ∀ e o n,
+        (e, o, n) ∈ l ↔ (e, o, n) ∈ specChanged (snapshot w.liveRows p) (snapshot w.liveRows t)) ∧
+    ((track t p w reads).2.removed.isSome = reads.any isRemovedRead ∧
+      ∀ l, (track t p w reads).2.removed = some l → ∀ e o,
+        (e, o) ∈ l ↔ (e, o) ∈ specRemoved (snapshot w.liveRows p) (snapshot w.liveRows t)
+          (w.liveRows.map (·.1))) :=
+  Headline.reports_eq_diff htp w hw reads hc hr
+
+/-- the same in terms of the observation -/
+theorem reports_eq_diff_comp {t p : Nat} (htp : t ≠ p) (w : World) (hw : w.Inv) (reads : List Read)
+    (hc : reads.countP isChangedRead ≤ 1) (hr : reads.countP isRemovedRead ≤ 1) :
+    (∀ l, (track t p w reads).2.added = some l → ∀ e v,
+      (e, v) ∈ l ↔ comp w e t = some v ∧ comp w e p = none) ∧
+    (∀ l, (track t p w reads).2.changed = some l → ∀ e o n,
+      (e, o, n) ∈ l ↔ comp w e t = some n ∧ comp w e p = some o ∧ n ≠ o) ∧
+    (∀ l, (track t p w reads).2.removed = some l → ∀ e o,
+      (e, o) ∈ l ↔ comp w e p = some o ∧ comp w e t = none) :=
+  have h := track_reports htp w hw reads hc hr
+  ⟨h.1.2, h.2.1.2, h.2.2.2⟩
+
+/-! ### 5. two consecutive `track`s -/
+
+/-- an operation (`spawn`, `insert`, `remove`, `despawn`, `flush`) that does not mention `p` preserves
+the `p` value of every handle that exists afterwards (handles it creates have none; it removes a `p`
+value only by despawning the entity) -/
+theorem op_keeps_p (p : Nat) (w : World) (hw : w.Inv) (op : Op) (hop : op.WF) (hnp : NoP p op) (e : Entity)
+    (h : ((step w op).1.lookup e).isSome = true) : comp (step w op).1 e p = comp w e p :=
+  keepsP_step p w hw op hop hnp e h
+
+/-- general form: `w0` satisfies the tracker invariant (e.g. it is the result of a `track`,
+`track_snapshot_eq_current`), the history `w0 ⟶ w1` preserves the `p` value of every handle of `w1`;
+then the next `track` reports exactly the difference between the `t`-snapshot of `w0` and the
+`t`-snapshot of `w1` -/
+theorem two_tracks_general {t p : Nat} (htp : t ≠ p) (w0 w1 : World) (hw0 : w0.Inv) (hw1 : w1.Inv)
+    (ht : ∀ e, comp w0 e p = comp w0 e t)
+    (hk : ∀ e, (w1.lookup e).isSome = true → comp w1 e p = comp w0 e p) (reads : List Read)
+    (hc : reads.countP isChangedRead ≤ 1) (hr : reads.countP isRemovedRead ≤ 1) :
+    ((track t p w1 reads).2.added.isSome = reads.any isAddedRead ∧
+      ∀ l, (track t p w1 reads).2.added = some l → ∀ e v,
+        (e, v) ∈ l ↔ (e, v) ∈ specAdded (snapshot w0.liveRows t) (snapshot w1.liveRows t)) ∧
+    ((track t p w1 reads).2.changed.isSome = reads.any isChangedRead ∧
+      ∀ l, (track t p w1 reads).2.changed = some l → ∀ e o n,
+        (e, o, n) ∈ l ↔ (e, o, n) ∈ specChanged (snapshot w0.liveRows t) (snapshot w1.liveRows t)) ∧
+    ((track t p w1 reads).2.removed.isSome = reads.any isRemovedRead ∧
+      ∀ l, (track t p w1 reads).2.removed = some l → ∀ e o,
+        (e, o) ∈ l ↔ (e, o) ∈ specRemoved (snapshot w0.liveRows t) (snapshot w1.liveRows t)
+          (w1.liveRows.map (·.1))) :=
+  track_reports_two htp w0 w1 hw0 hw1 ht hk reads hc hr
+
+/-- `track`, one operation not mentioning `p` (`spawn`, `insert`, `remove`, `despawn`, `flush`),
+`track`: the second `track` reports exactly the difference between the two snapshots of `t` -/
+theorem two_tracks_one_op {t p : Nat} (htp : t ≠ p) (w : World) (hw : w.Inv) (reads0 : List Read)
+    (op : Op) (hop : op.WF) (hnp : NoP p op) (reads : List Read)
+    (hc : reads.countP isChangedRead ≤ 1) (hr : reads.countP isRemovedRead ≤ 1) :
+    ((track t p (step (track t p w reads0).1 op).1 reads).2.added.isSome = reads.any isAddedRead ∧
+      ∀ l, (track t p (step (track t p w reads0).1 op).1 reads).2.added = some l → ∀ e v,
+        (e, v) ∈ l ↔ (e, v) ∈ specAdded (snapshot (track t p w reads0).1.liveRows t)
+          (snapshot (step (track t p w reads0).1 op).1.liveRows t)) ∧
+    ((track t p (step (track t p w reads0).1 op).1 reads).2.changed.isSome = reads.any isChangedRead ∧
+      ∀ l, (track t p (step (track t p w reads0).1 op).1 reads).2.changed = some l → ∀ e o n,
+        (e, o, n) ∈ l ↔ (e, o, n) ∈ specChanged (snapshot (track t p w reads0).1.liveRows t)
+          (snapshot (step (track t p w reads0).1 op).1.liveRows t)) ∧
+    ((track t p (step (track t p w reads0).1 op).1 reads).2.removed.isSome = reads.any isRemovedRead ∧
+      ∀ l, (track t p (step (track t p w reads0).1 op).1 reads).2.removed = some l → ∀ e o,
+        (e, o) ∈ l ↔ (e, o) ∈ specRemoved (snapshot (track t p w reads0).1.liveRows t)
+          (snapshot (step (track t p w reads0).1 op).1.liveRows t)
+          ((step (track t p w reads0).1 op).1.liveRows.map (·.1))) :=
+  have hi := track_inv htp w hw reads0
+  track_reports_two htp _ _ hi (World.inv_step _ op hop hi) (track_tracked htp w hw reads0)
+    (keepsP_step p _ hi op hop hnp) reads hc hr
+
+/-- `track`; any number of operations not mentioning `p` (`spawn`, `insert`, `remove`, `despawn`,
+`flush`); `track`: the second `track` reports exactly the difference between the two snapshots of `t`
+(`w0`: the world after the first `track`, `w1`: the world before the second) -/
+theorem two_tracks_ops {t p : Nat} (htp : t ≠ p) (w : World) (hw : w.Inv) (reads0 : List Read)
+    (ops : List Op) (hops : ∀ op, op ∈ ops → op.WF ∧ NoP p op) (w0 w1 : World)
+    (h0 : w0 = (track t p w reads0).1) (h1 : w1 = ops.foldl (fun w op => (step w op).1) w0)
+    (reads : List Read) (hc : reads.countP isChangedRead ≤ 1) (hr : reads.countP isRemovedRead ≤ 1) :
+    ((track t p w1 reads).2.added.isSome = reads.any isAddedRead ∧
+      ∀ l, (track t p w1 reads).2.added = some l → ∀ e v,
+        (e, v) ∈ l ↔ (e, v) ∈ specAdded (snapshot w0.liveRows t) (snapshot w1.liveRows t)) ∧
+    ((track t p w1 reads).2.changed.isSome = reads.any isChangedRead ∧
+      ∀ l, (track t p w1 reads).2.changed = some l → ∀ e o n,
+        (e, o, n) ∈ l ↔ (e, o, n) ∈ specChanged (snapshot w0.liveRows t) (snapshot w1.liveRows t)) ∧
+    ((track t p w1 reads).2.removed.isSome = reads.any isRemovedRead ∧
+      ∀ l, (track t p w1 reads).2.removed = some l → ∀ e o,
+        (e, o) ∈ l ↔ (e, o) ∈ specRemoved (snapshot w0.liveRows t) (snapshot w1.liveRows t)
+          (w1.liveRows.map (·.1))) :=
+  Headline.two_tracks_ops htp w hw reads0 ops hops w0 w1 h0 h1 reads hc hr
+
+/-- the empty history: a `track` immediately after a `track` reports nothing -/
+theorem two_tracks_no_op {t p : Nat} (htp : t ≠ p) (w : World) (hw : w.Inv) (reads0 reads : List Read)
+    (hc : reads.countP isChangedRead ≤ 1) (hr : reads.countP isRemovedRead ≤ 1) :
+    (∀ l, (track t p (track t p w reads0).1 reads).2.added = some l → l = []) ∧
+    (∀ l, (track t p (track t p w reads0).1 reads).2.changed = some l → l = []) ∧
+    (∀ l, (track t p (track t p w reads0).1 reads).2.removed = some l → l = []) :=
+  Headline.two_tracks_no_op htp w hw reads0 reads hc hr
+
+/-! ### 6. non-vacuity on a concrete world
+
+`t = 1`, `p = 9`.  Entities 0 and 1 have `t`, entity 2 has not. -/
+
+def exOps : List Op := [.spawn [(1, 10), (2, 20)], .spawn [(1, 11)], .spawn [(2, 5)]]
+
+def exW : World := run exOps
+
+theorem exW_inv : exW.Inv := World.inv_run exOps (by decide)
+
+/-- first `track`, nothing read: the drop installs the snapshots -/
+def exW1 : World := (track 1 9 exW []).1
+
+example : exW1.lookup ⟨0, 1⟩ = some [(1, 10), (2, 20), (9, 10)] := by decide +kernel
+example : exW1.lookup ⟨1, 1⟩ = some [(1, 11), (9, 11)] := by decide +kernel
+example : exW1.lookup ⟨2, 1⟩ = some [(2, 5)] := by decide +kernel
+example : (track 1 9 exW [.added true]).2.added = some [(⟨0, 1⟩, 10), (⟨1, 1⟩, 11)] := by decide +kernel
+example : (track 1 9 exW [.added true]).2.changed = none := by decide +kernel
+
+/-- between the tracks: entity 0 changes `t`, entity 1 loses it, entity 2 gains it, entity 3 is new
+without it; none of the operations mentions `p = 9` -/
+def exW2 : World :=
+  [Op.insert ⟨0, 1⟩ [(1, 12)], .remove ⟨1, 1⟩ [1], .insert ⟨2, 1⟩ [(1, 30)], .spawn [(2, 6)], .reserveEntity].foldl
+    (fun w op => (step w op).1) exW1
+
+example : NoP 9 (Op.insert ⟨0, 1⟩ [(1, 12)]) ∧ NoP 9 (Op.remove ⟨1, 1⟩ [1]) ∧ NoP 9 (Op.spawn [(2, 6)]) := by
+  simp [NoP]
+
+-- second `track`: every order of reads gives the same three reports
+example : (track 1 9 exW2 [.added false, .changed false, .removed false]).2.added = some [(⟨2, 1⟩, 30)] := by
+  decide +kernel
+example : (track 1 9 exW2 [.added false, .changed false, .removed false]).2.changed
+    = some [(⟨0, 1⟩, 10, 12)] := by decide +kernel
+example : (track 1 9 exW2 [.added false, .changed false, .removed false]).2.removed
+    = some [(⟨1, 1⟩, 11)] := by decide +kernel
+example : (track 1 9 exW2 [.removed true, .added true, .changed true]).2.added = some [(⟨2, 1⟩, 30)] := by
+  decide +kernel
+example : (track 1 9 exW2 [.removed true, .added true, .changed true]).2.changed
+    = some [(⟨0, 1⟩, 10, 12)] := by decide +kernel
+example : (track 1 9 exW2 [.removed true, .added true, .changed true]).2.removed
+    = some [(⟨1, 1⟩, 11)] := by decide +kernel
+-- they are the specified differences of the two snapshots of `t`
+example : specAdded (snapshot exW1.liveRows 1) (snapshot exW2.liveRows 1) = [(⟨2, 1⟩, 30)] := by decide +kernel
+example : specChanged (snapshot exW1.liveRows 1) (snapshot exW2.liveRows 1) = [(⟨0, 1⟩, 10, 12)] := by
+  decide +kernel
+example : specRemoved (snapshot exW1.liveRows 1) (snapshot exW2.liveRows 1) (exW2.liveRows.map (·.1))
+    = [(⟨1, 1⟩, 11)] := by decide +kernel
+-- a repeated read: `added` answers again, `changed` and `removed` are empty the second time
+example : (track 1 9 exW2 [.changed false, .added false, .changed false, .added false]).2.changed = some [] := by
+  decide +kernel
+example : (track 1 9 exW2 [.changed false, .added false, .changed false, .added false]).2.added
+    = some [(⟨2, 1⟩, 30)] := by decide +kernel
+example : (track 1 9 exW2 [.removed false, .removed false]).2.removed = some [] := by decide +kernel
+-- whatever is read, the world afterwards is the same up to `lookup`, and snapshot = current
+example : (track 1 9 exW2 []).1.lookup ⟨0, 1⟩ = some [(1, 12), (2, 20), (9, 12)] := by decide +kernel
+example : (track 1 9 exW2 [.changed true]).1.lookup ⟨0, 1⟩ = some [(1, 12), (2, 20), (9, 12)] := by
+  decide +kernel
+example : (track 1 9 exW2 [.removed true, .added false]).1.lookup ⟨1, 1⟩ = some [] := by decide +kernel
+example : (track 1 9 exW2 [.added true]).1.lookup ⟨2, 1⟩ = some [(1, 30), (2, 5), (9, 30)] := by decide +kernel
+-- the reserved handle is not live before and live after (the drop's `insert` flushed)
+example : exW2.isLive ⟨4, 1⟩ = false ∧ (track 1 9 exW2 []).1.isLive ⟨4, 1⟩ = true := by decide +kernel
 
 end Hecs.Props.C18
